@@ -2,6 +2,7 @@
 //@[ imports
 use vstd::prelude::*;
 use vstd::std_specs::cmp::*;
+use crate::vx_ord::*;
 //@]
 use crate::data::{table::Quasiterminal, *};
 
@@ -16,19 +17,20 @@ pub struct Machine {
 }
 
 impl Machine {
-    //@[ T: Iterator::find_map is outside the supported subset (body not verified; contract assumed)
-    #[verifier::external_body]
-    //@]
     pub fn get_shift_dest(
         &self,
         start: StateIndex,
         terminal: &DollarlessTerminalName,
     ) -> /*@[*/(r: /*@]*/Option<StateIndex>/*@[*/)/*@]*/
-        //@[ assumed contract: target of the first transition (in set order) from `start` on `terminal`
+        //@[ C17 C07 get_shift_dest: target of the first transition (in set order) from `start` on `terminal`
         ensures r == shift_dest(self.transitions.seq(), start, *terminal, 0),
         //@]
     {
-        self.transitions.iter().find_map(|t| {
+        //@[ proof
+        let ghost g = |t: Transition| if t.from == start && t.symbol == Symbol::Terminal(*terminal) { Some(t.to) } else { None::<StateIndex> };
+        proof { lemma_find_is_shift_dest(self.transitions.seq(), g, start, *terminal, 0); }
+        //@]
+        /*@{ T18_open*//*@- self.transitions.iter().find_map( *//*@|*/__vx_find_map(&self.transitions, /*@}*/|t/*@[*/: &Transition/*@]*/| /*@[*/-> (o: Option<StateIndex>) ensures o == g(*t) /*@]*/{
             if t.from == start && t.symbol == *terminal {
                 Some(t.to)
             } else {
@@ -37,6 +39,16 @@ impl Machine {
         })
     }
 }
+
+//@[ C17 lemma: find_map with this closure is shift_dest
+pub proof fn lemma_find_is_shift_dest(ts: Seq<Transition>, g: spec_fn(Transition) -> Option<StateIndex>, start: StateIndex, t: DollarlessTerminalName, i: int)
+    requires forall|x: Transition| #[trigger] g(x) == (if x.from == start && x.symbol == Symbol::Terminal(t) { Some(x.to) } else { None::<StateIndex> })
+    ensures find_map_spec(ts, g, i) == shift_dest(ts, start, t, i)
+    decreases ts.len() - i
+{
+    if 0 <= i < ts.len() { lemma_find_is_shift_dest(ts, g, start, t, i + 1); }
+}
+//@]
 
 //@[ spec side of the mixed comparison Symbol == DollarlessTerminalName
 impl PartialEqSpecImpl<DollarlessTerminalName> for Symbol {
